@@ -216,7 +216,7 @@ def run(ctx):
     subs = SUBS_QUICK if ctx.quick else SUBS_THOROUGH
     budget = 250 if ctx.quick else 2400
     sunits = [(name, subs, budget) for name in shapes()]
-    N = 3 if ctx.quick else 4
+    N = 4 if ctx.quick else 5
     alpha = parsex.ALPHABETS[('standard', 'reduced')]
     tunits = []
     for store in ('empty', 'F1,G2'):
